@@ -30,8 +30,10 @@ pub fn all() -> Vec<&'static Prop> {
 pub fn worker_main(kind: &str, _args: &[String]) -> i32 {
     match kind {
         "c01" => c01::worker(),
+        "c05" => c05::worker(),
         "c08" => c08::worker(),
         "c10" => c10::worker(),
+        "c11" => c11::worker(),
         "c13" => c13::worker(),
         "c14" => c14::worker(),
         "c16" => c16::worker(),
